@@ -4,6 +4,14 @@ import json, os
 V = os.path.dirname(os.path.dirname(os.path.abspath(__file__)))
 
 CHECKS = {
+ "C17": dict(cat="model_checking", ref="DESIGN.md section 5 C17",
+   text="TLA+ module ECGroup (affine group law, identity (0,0)); TLC checks the group axioms on every triple of points of toy curves y^2=x^3+7 of prime order. The production code is generic in CurveParams, so both copies of koblitzCurve are instantiated with the toy parameters and TLC's COMPLETE tables are replayed through them (all point pairs, all points, all scalars 0..2n+2 in several encodings, all coordinates for IsOnCurve). At real size every Add/Double result and ScalarBaseMult relation is verified by TLC through certificates (congruences with logged quotients checked by BigNat multiplication), incl. identity, P=Q, P=-Q, scalars 0, n, n+-1, 2^256-1 and leading zeros.",
+   note="Trusted: TLC/SANY/CommunityModules, Go toolchain; the driver's math/big reference only produces certificates that TLC re-verifies. Real-size operands are sampled; exhaustiveness comes from the toy instantiation of the same code.",
+   tech="explicit TLA+ spec + TLC exhaustive toy-curve model + complete tables replayed through the real generic code + certificate-checked real-size traces"),
+ "C08": dict(cat="model_checking", ref="DESIGN.md section 5 C08",
+   text="Same ECGroup specification: shifting the scalar and shifting the point commute (model-checked for every (k,d) on toy curves). The real PrivateKey.Shift and PublicKey.Shift run on a toy-instantiated secp256k1 implementation for the complete (k,d) table; at real size (secp256k1 and P-256) special shifts 0, k, n-k, n, n+j, 2^256-1 and random ones are judged by TLC with BigNat certificates, and both orders of DeriveChild are compared (key bytes, chain code, fingerprint).",
+   note="Trusted: as C17. The toy instantiation goes through an overlay-only export shim in the internal btccurve package (not part of /repo).",
+   tech="explicit TLA+ spec + TLC toy model + complete (k,d) tables replayed through the real Shift code + certificate-checked real-size traces"),
  "C13": dict(cat="model_checking", ref="DESIGN.md section 5 C13",
    text="TLA+ module PowMine models Mine of both PoW versions with one action per stretch of code between two hook points (main, watcher, NW workers, environment cancelling at any instant). TLC checks safety for NW<=3 (thorough 4) in modes always/never/either (a finder's send never blocks, nonce only if found, ErrCancelled only if cancelled, all workers joined at return, no stuck state) and liveness under weak fairness (cancelled ~> returned, found ~> returned, returned ~> no goroutine left); an undersized channel is shown to violate the model (vacuity control). TLC simulation behaviours are replayed as schedules on the real Mine through blocking hooks (build tag verif), free-running executions with 1..64 workers and cancellation before / during / at a find are recorded, and every execution is validated against PowMine by TLC, which infers the interleaving (one action of look-ahead per process) and checks the returned value, the goroutine count and the score of the returned nonce. The free-running binary runs under the race detector.",
    note="Trusted: TLC/SANY/CommunityModules, Go toolchain and race detector (dynamic), sequentially consistent atomics and channel semantics as modelled, mutex-ordered hook events. The model is bounded (NW<=4); real executions are sampled schedules. A hang is observed positively (Mine not returned 10 s after it must) and confirmed by re-running.",
